@@ -133,6 +133,12 @@ def normal_form_equal(fi, spec_src):
     return verdict == "equal", show_paths(got), show_paths(want)
 
 
+def open_array(chk, repo):
+    """C01-R11: pixel array wiring (vlib/openmodel.py)"""
+    from .open_rules import open_rules
+    open_rules(chk, repo, "C01-R11", ('array', 'open-args', 'shape'), "open_image wires the pixel array to this image on the live filesystem with the parsed byte ranges and the header's shape")
+
+
 def run(chk, repo):
     L = Layouts(repo)
     chk.explanation = (
@@ -161,6 +167,7 @@ def run(chk, repo):
     chk.attempt(trace_positions, chk, repo)
     chk.attempt(r5, chk, repo, L, covered_by="trace_positions", rules=("C01-R5",))
     chk.attempt(r6, chk, repo, L)
+    chk.attempt(open_array, chk, repo)
     chk.attempt(load_rows, chk, repo)
     chk.attempt(r7, chk, repo, covered_by="load_rows")
     chk.attempt(r8, chk, repo, covered_by="load_rows")
